@@ -1,10 +1,8 @@
 #!/bin/sh
-# Offline set-up: warm the Go build cache by building the worker binaries once.
+# Offline set-up: warm the Go build cache by building both worker binaries once
+# (plain: engine A/E; inst: engines B/D with the generated overlay).
 set -e
 cd "$(dirname "$0")"
-export GOFLAGS=-mod=mod GOPROXY=off GOSUMDB=off GOTOOLCHAIN=local
 mkdir -p build evidence replays
-cp /repo/go.sum sim/go.sum
-(cd sim && go1.26.8 test -c -tags verif -o ../build/worker-plain ./w)
-(cd sim && go1.26.8 run ./tools/instrument -repo /repo -out ../build/overlay && go1.26.8 test -c -tags "verif inst" -overlay ../build/overlay/overlay.json -o ../build/worker-inst ./w)
+./check build
 echo setup ok
